@@ -12,10 +12,10 @@ VERIF = build.VERIF
 
 RUNTIME = {
     # prop: (groups, rule for distinct_nontrivial, required shape substrings (coverage floor))
-    "C01": (["single", "array", "mixed"],
+    "C01": (["single", "array", "mixed", "nc"],
             "(case, field, index) triples of readable contiguous fields for which the getter returned >=2 distinct results over the raw values tried, every result equalled the reference register, and flipping each outside bit (isolation twins) left the result unchanged",
             ["s8|", "s16|", "s32|", "s64|", "s128|", "s32arb|", "s128arb|", "|bool|", "|full|", "|top|", "w=S"]),
-    "C02": (["single", "array", "mixed"],
+    "C02": (["single", "array", "mixed", "nc"],
             "(case, field, index) triples of writable contiguous fields for which a write over an old field value not in {0, v} was observed with the neighbouring bits both all-zero and all-one, in both with_ and set_ form, all agreeing with the reference register",
             ["s8|", "s16|", "s32|", "s64|", "s128|", "s32arb|", "s128arb|", "|bool|", "|full|", "|top|", "w=S"]),
     "C03": (["array", "nc", "custom", "mixed"],
